@@ -76,6 +76,7 @@ struct Inst {
 };
 struct Reg {
   std::map<std::string, Inst> m;
+  std::vector<std::pair<std::string, Inst>> grave;  // last states of replaced instances (C12.leak attribution only)
   bool has_cur = false;
   std::string cur;
   Inst* cur_inst() { return has_cur ? &m[cur] : nullptr; }
